@@ -530,8 +530,15 @@ def to_yaml_dict(model, style=0, prefix=""):
 def write_yaml(model, path="mdl_yaml/m.yaml", style=0):
     import os
     from ruamel.yaml import YAML
+    import io
     d, top = to_yaml_dict(model, style)
     os.makedirs(os.path.dirname(path), exist_ok=True)
-    with open(path, "w") as fh:
-        YAML().dump(d, fh)
+    buf = io.StringIO()
+    YAML().dump(d, buf)
+    text = buf.getvalue()
+    # a definition file that already holds exactly this text is left untouched (same modification time): a second load of the
+    # same path within one process then sees an unchanged file, as it would for a user's own template file
+    if not (os.path.exists(path) and open(path).read() == text):
+        with open(path, "w") as fh:
+            fh.write(text)
     return path[:-5] + "/" + top
